@@ -2,5 +2,6 @@ CONSTANTS P = 17 GEN = 3 LOGN = 4 Tier = "quick"
 INIT Init
 NEXT Next
 INVARIANT BasesAccepted
+INVARIANT DecLenAgrees
 INVARIANT EmitInv
 CHECK_DEADLOCK FALSE
